@@ -1101,6 +1101,44 @@ example :
     (parseModify (s2l "h${0,3,x}")).map (fun m => substIndex (s2l "h${0,3,x}") m 255) = some (s2l "h0ff") := by
   refine ⟨by rfl, by rfl, by rfl, by rfl, by rfl, by rfl, by rfl, by rfl⟩
 
+/-! ### the node-kind classification over (rdtype, covers) -/
+
+/-- **the table, written out**: what `NodeKind.classify` says on the grid that matters — CNAME and an RRSIG covering CNAME
+are "CNAME"; NSEC, NSEC3, KEY and an RRSIG covering one of them are "neutral"; everything else is "other data", in
+particular the legacy SIG (type 24) whatever it covers, an RRSIG covering an ordinary type, DNSKEY, and NSEC/KEY used as
+the *covered* type of anything that is not an RRSIG. (`decide`, over the tables regenerated from the working tree.) -/
+theorem classify_table :
+    classifyTC 5 0 = .cname ∧ classifyTC 46 5 = .cname ∧
+    classifyTC 47 0 = .neutral ∧ classifyTC 50 0 = .neutral ∧ classifyTC 25 0 = .neutral ∧
+    classifyTC 46 47 = .neutral ∧ classifyTC 46 50 = .neutral ∧ classifyTC 46 25 = .neutral ∧
+    classifyTC 24 5 = .regular ∧ classifyTC 24 47 = .regular ∧ classifyTC 24 50 = .regular ∧ classifyTC 24 25 = .regular ∧
+    classifyTC 24 1 = .regular ∧ classifyTC 24 0 = .regular ∧
+    classifyTC 46 1 = .regular ∧ classifyTC 46 0 = .regular ∧ classifyTC 46 46 = .regular ∧ classifyTC 46 48 = .regular ∧
+    classifyTC 48 0 = .regular ∧ classifyTC 1 0 = .regular ∧ classifyTC 6 0 = .regular ∧ classifyTC 65280 0 = .regular := by
+  decide
+
+/-- the covered type matters for RRSIG only: for every other type — SIG included — the classification is that of the
+type alone (what seeded change C09-o loses: `covers in rdtypes` for any type) -/
+theorem classify_covers_only_for_rrsig (ty covers : Nat) (h : ty ≠ ConstsC09.rrsigType) :
+    classifyTC ty covers = classifyType ty := by
+  unfold classifyTC classifyType matchesTypeOrItsSignature
+  have : (ty == ConstsC09.rrsigType) = false := by simpa using h
+  simp [this]
+
+/-- an RRSIG is classified by what it covers -/
+theorem classify_rrsig (covers : Nat) : classifyTC ConstsC09.rrsigType covers = classifyType covers := by
+  unfold classifyTC classifyType matchesTypeOrItsSignature
+  have h1 : ¬ (ConstsC09.rrsigType ∈ ConstsC09.cnameTypes) := by decide
+  have h2 : ¬ (ConstsC09.rrsigType ∈ ConstsC09.neutralTypes) := by decide
+  simp [h1, h2]
+
+/-- which kinds may share a node (`_check_cname_and_other_data`): everything except CNAME with "other data" -/
+theorem coexistence_table :
+    kindsCoexist .cname .cname = true ∧ kindsCoexist .cname .neutral = true ∧ kindsCoexist .neutral .cname = true ∧
+    kindsCoexist .neutral .regular = true ∧ kindsCoexist .regular .neutral = true ∧ kindsCoexist .regular .regular = true ∧
+    kindsCoexist .neutral .neutral = true ∧ kindsCoexist .cname .regular = false ∧ kindsCoexist .regular .cname = false := by
+  decide
+
 /-! ### `$INCLUDE file [origin]` -/
 
 /-- **`$INCLUDE file origin⏎` saves and restores the parent's state.**  `Reader.read` pushes `(tok, current_origin,
